@@ -107,6 +107,16 @@ pub fn model_bin(a: &Bits, b: &Bits, op: BinOp) -> Option<Bits> {
     }
 }
 
+/// Provenances used by the small-scope enumerations: canonical for every type, plus spare
+/// capacity and heap-mode-although-short for the two unbounded types.
+pub fn scope_provs(t: Tid) -> Vec<Prov> {
+    if t == TID_D || t == TID_A {
+        vec![Prov::Canon, Prov::Spare(200), Prov::LongThenTrunc(200)]
+    } else {
+        vec![Prov::Canon]
+    }
+}
+
 pub fn op_name(op: BinOp) -> &'static str {
     match op {
         BinOp::Add => "add",
